@@ -336,7 +336,7 @@ class ArmWalker:
                 cp = member_path(callee) or ''
                 if cp == 'recurse' or (callee is not None and 'lambda' in (callee.type or '')):
                     args = c.kids[2:]
-                    ent = entry_kind(args[-1], self) if len(args) >= 2 else None
+                    ent = entry_kind(args[1], self) if len(args) >= 2 else None
                     src = self.cls_of(args[0]) if args else None
                     self.events.append(('visit', src, ent, c))
                 elif 'unflatten_func' in c.text(4):
